@@ -34,6 +34,8 @@ var importMap = map[string]string{
 	"math/rand":                      "rand " + q(shimRoot+"vrand"),
 	"sync/atomic":                    "atomic " + q(shimRoot+"vatomic"),
 	"context":                        "context " + q(shimRoot+"vcontext"),
+	"hash/maphash":                   "maphash " + q(shimRoot+"vmaphash"),
+	"math/rand/v2":                   "rand " + q(shimRoot+"vrand2"),
 	"golang.org/x/sync/singleflight": "singleflight " + q(shimRoot+"singleflight"),
 }
 
@@ -654,7 +656,7 @@ func main() {
 		}
 	}
 	// virtual packages
-	for _, pkg := range []string{"vrt", "vsync", "vtime", "vruntime", "vrand", "vatomic", "vcontext"} {
+	for _, pkg := range []string{"vrt", "vsync", "vtime", "vruntime", "vrand", "vatomic", "vcontext", "vmaphash", "vrand2"} {
 		files, _ := filepath.Glob(filepath.Join(*verif, "vrt", pkg, "*.go"))
 		for _, f := range files {
 			if strings.HasSuffix(f, "_test.go") {
